@@ -1,7 +1,9 @@
 #!/venv/bin/python
 """Evaluate one seeded change: apply /verif/seeded/<name>/patch.diff to /repo, confirm the pinned test
 suite still passes and the demonstration fails, run the given checks, undo, confirm the demonstration passes.
-Usage: eval_seeded.py <name> [--checks C01,C07] [--tier quick]"""
+Usage: eval_seeded.py <name> [--checks C01,C07] [--tier quick] [--wt <worktree>]
+With --wt the change is evaluated in a scratch worktree of /repo (patch applied there, checks run with
+JPV_REPO=<worktree>), so /repo itself is not touched (for use while a background run is reading /repo)."""
 import json, os, subprocess, sys, time
 
 VERIF = os.path.dirname(os.path.dirname(os.path.abspath(__file__)))
@@ -10,6 +12,38 @@ VERIF = os.path.dirname(os.path.dirname(os.path.abspath(__file__)))
 def sh(cmd, **kw):
     p = subprocess.run(cmd, shell=True, stdout=subprocess.PIPE, stderr=subprocess.STDOUT, **kw)
     return p.returncode, p.stdout.decode("utf8", "replace")
+
+
+def in_worktree(name, d, meta, checks, tier, wt):
+    result = {"ran_at": time.strftime("%Y-%m-%dT%H:%M:%SZ", time.gmtime()), "checks": {}, "where": "scratch worktree (JPV_REPO)"}
+    sh(f"git -C {wt} checkout -- . && git -C {wt} clean -fdq -- jsonpath_rfc9535")
+    head_wt = sh(f"git -C {wt} rev-parse HEAD")[1].strip()
+    head_repo = sh("git -C /repo rev-parse HEAD")[1].strip()
+    if head_wt != head_repo:
+        print("refusing: worktree is not at /repo's HEAD"); return 2
+    try:
+        rc, out = sh(f"git -C {wt} apply {d}/patch.diff")
+        if rc != 0:
+            print("patch does not apply:", out); return 2
+        rc, out = sh(f"cd {wt} && PYTHONPATH={wt} /venv/bin/python -m pytest -q -p no:cacheprovider --timeout=900 --continue-on-collection-errors 2>&1 | tail -1")
+        result["tests_with_change"] = out.strip()
+        rc, out = sh(f"cd {d} && PYTHONPATH={wt} /venv/bin/python demo.py 2>&1")
+        result["demo_with_change"] = {"exit": rc, "tail": out.strip()[-300:]}
+        for c in checks:
+            t = time.time()
+            rc, out = sh(f"cd {VERIF} && JPV_REPO={wt} VERIF_SEED=1 /venv/bin/python harness/run_check.py {c} --tier {tier} 2>&1", timeout=3600)
+            lines = [l for l in out.splitlines() if l.startswith(("VIOLATION", "OK ", "INFRA", "  {", "  broken", "  mismatch"))]
+            result["checks"][c] = {"exit": rc, "wall_s": round(time.time() - t, 1), "lines": [l[:400] for l in lines[:4]]}
+    finally:
+        sh(f"git -C {wt} checkout -- . && git -C {wt} clean -fdq -- jsonpath_rfc9535")
+        sh(f"cd {VERIF} && git checkout -- evidence && git clean -fdq -- replays evidence")
+        sh(f"cd {VERIF} && /venv/bin/python harness/gen_tables.py > /dev/null")
+    rc, out = sh(f"cd {d} && PYTHONPATH={wt} /venv/bin/python demo.py 2>&1")
+    result["demo_without_change"] = {"exit": rc, "tail": out.strip()[-200:]}
+    meta["evaluation"] = result
+    json.dump(meta, open(os.path.join(d, "meta.json"), "w"), indent=1)
+    print(json.dumps(result, indent=1))
+    return 0
 
 
 def main():
@@ -21,9 +55,15 @@ def main():
             checks = sys.argv[i + 1].split(",")
         if a == "--tier":
             tier = sys.argv[i + 1]
+    wt = None
+    for i, a in enumerate(sys.argv):
+        if a == "--wt":
+            wt = sys.argv[i + 1]
     d = os.path.join(VERIF, "seeded", name)
     meta = json.load(open(os.path.join(d, "meta.json")))
     checks = checks or [meta["property"]]
+    if wt:
+        return in_worktree(name, d, meta, checks, tier, wt)
     rc, out = sh("git -C /repo status --porcelain")
     if out.strip():
         print("refusing: /repo is not clean"); return 2
